@@ -145,9 +145,10 @@ def run(ctx):
     for t in threads:
         t.start()
     try:
-        # core: quick 3 handles x 4 calls; thorough adds 2 handles x 6 calls (12.5 M transitions).  (3 handles x 5 calls = 21.7 M
+        # core: quick 3 handles x 4 calls; thorough adds 2 handles x 6 calls on sizes {0,2,7} (6.9 M transitions) and 2 handles x 5 calls on all sizes (3.5 M);
+        # after the growth of ArraySeq the former 2 x 6 configuration on all sizes has > 30 M transitions.  (3 handles x 5 calls = 21.7 M
         # transitions cannot be emitted: TLC interns every printed string and its table overflows at about 33.5 M entries.)
-        cfgs = ["MC_ArraySeq_quick"] if ctx.quick else ["MC_ArraySeq_thorough", "MC_ArraySeq_thorough2"]
+        cfgs = ["MC_ArraySeq_quick"] if ctx.quick else ["MC_ArraySeq_thorough", "MC_ArraySeq_thorough2", "MC_ArraySeq_thorough3"]
         for cfg in cfgs:
             cases = os.path.join(ctx.tmp, "c01.cases")
             ctx.model("ArraySeq", cfg, emit_to=cases, timeout=ctx.pick(600, 5400), xmx="6g", must_cover=ctx.quick)
